@@ -374,3 +374,82 @@ func init() {
 			return obs
 		}})
 }
+
+func init() {
+	register(&Rule{ID: "PKG.keyword-lexical", Floor: 2,
+		Doc: "every store of a lexical binding (an element of LEnv.scope) is reached only over an edge entailing that the name is not a keyword (`!strings.HasPrefix(name, \":\")`), or over the found-edge of a lookup of that same name in that same scope (an update of a binding that already passed the test); copying a scope is exempt — with PKG.keyword-refused for the global side, a keyword can never be bound",
+		Run: func(c *Ctx) []Obligation {
+			scope := c.LookupField("lisp.LEnv.scope")
+			if scope == nil {
+				return []Obligation{anchorMissing("PKG.keyword-lexical", "LEnv.scope")}
+			}
+			var obs []Obligation
+			ord := map[string]*ordinal{}
+			for _, w := range c.censusFor(nil).WritersOf(scope) {
+				if w.Kind != "elem" {
+					continue
+				}
+				u := w.Unit
+				name := u.Name()
+				if ord[name] == nil {
+					ord[name] = &ordinal{}
+				}
+				construct := ord[name].next("store scope[name]")
+				if name == "lisp.(*LEnv).Copy" {
+					obs = append(obs, mkOb(c, "PKG.keyword-lexical", u, construct, w.Node, Proved, "copies bindings that already passed the test into a fresh scope map", false))
+					continue
+				}
+				info := u.Pkg.TypesInfo
+				fc := c.cfgOf(u, nil)
+				loc, ok := fc.Locate(w.Node)
+				if !ok {
+					obs = append(obs, mkOb(c, "PKG.keyword-lexical", u, construct, w.Node, Undecided, "store not located in the CFG", false))
+					continue
+				}
+				// the key expression of the store
+				var keyStr string
+				if as, ok := w.Node.(*ast.AssignStmt); ok {
+					for _, l := range as.Lhs {
+						if ie, ok := ast.Unparen(l).(*ast.IndexExpr); ok && FieldOfSelector(info, ie.X) == scope {
+							keyStr = types.ExprString(ie.Index)
+						}
+					}
+				}
+				cls := func(e ast.Expr) (string, bool) {
+					e = ast.Unparen(e)
+					if ce, ok := e.(*ast.CallExpr); ok && stdFuncCalled(info, ce, "strings", "HasPrefix") && len(ce.Args) == 2 {
+						if s, ok := constStringVal(info, ce.Args[1]); ok && s == ":" && types.ExprString(ce.Args[0]) == keyStr {
+							return "keyword", false
+						}
+					}
+					// ok from `_, ok := <recv>.scope[key]`
+					if o := identObj(info, e); o != nil {
+						found := false
+						ast.Inspect(u.Decl.Body, func(n ast.Node) bool {
+							as, ok := n.(*ast.AssignStmt)
+							if !ok || len(as.Lhs) != 2 || len(as.Rhs) != 1 || identObj(info, as.Lhs[1]) != o {
+								return true
+							}
+							if ie, ok := ast.Unparen(as.Rhs[0]).(*ast.IndexExpr); ok && FieldOfSelector(info, ie.X) == scope && types.ExprString(ie.Index) == keyStr {
+								found = true
+							}
+							return true
+						})
+						if found {
+							return "exists", false
+						}
+					}
+					return "", false
+				}
+				cut := fc.edgesEntailing(cls, func(v map[string]bool) bool {
+					return (v["$has:keyword"] && !v["keyword"]) || (v["$has:exists"] && v["exists"])
+				})
+				if keyStr != "" && len(cut) > 0 && !fc.reachableAvoiding(loc.B, cut) {
+					obs = append(obs, mkOb(c, "PKG.keyword-lexical", u, construct, w.Node, Proved, "reached only after `!strings.HasPrefix("+keyStr+", \":\")` or after the name was found in this scope", true))
+				} else {
+					obs = append(obs, mkOb(c, "PKG.keyword-lexical", u, construct, w.Node, Violated, "a lexical binding can be stored for a keyword: (let ([:x 1]) (set! :x 2) :x) is accepted and creates a binding that can never be read", true))
+				}
+			}
+			return obs
+		}})
+}
